@@ -1,4 +1,4 @@
-"""re-run selected self-test entries and merge them into selftest/RESULTS.json:  rerun_entries.py PROP:name ..."""
+"""re-run selected self-test entries (PROP:name, or PROP:* for all entries of a property) and merge them into selftest/RESULTS.json"""
 import importlib.util, json, os, sys
 ROOT='/verif'
 sys.path.insert(0, ROOT)
@@ -7,10 +7,13 @@ T = importlib.util.module_from_spec(spec); spec.loader.exec_module(T)
 from selftest.entries import entries
 want = set(sys.argv[1:])
 res = json.load(open(os.path.join(ROOT, 'selftest', 'RESULTS.json')))
-for e in entries():
+from concurrent.futures import ThreadPoolExecutor
+todo = [e for e in entries() if f"{e['prop']}:{e['name']}" in want or f"{e['prop']}:*" in want]
+with ThreadPoolExecutor(int(os.environ.get('SELFTEST_JOBS', '1'))) as ex:
+    done = list(ex.map(T.run_entry, todo))
+for e, r in zip(todo, done):
     key = f"{e['prop']}:{e['name']}"
-    if key in want:
-        r = T.run_entry(e)
+    if True:
         r['ok'] = r['got'] == e['expect'] or r['got'] == 'not-applicable' or (e['expect'] == 'no-alarm' and r['got'] in ('held', 'undecided'))
         r = {k: v for k, v in r.items() if k not in ('pat', 'rep')}
         print(key, r['got'], r['ok'])
